@@ -20,6 +20,14 @@ def honest(s):
     return s["expect"]["prove"] == "ok" and s["expect"]["verify"] == "ok"
 
 
+def par(*thunks):
+    """Run independent stages side by side (each has its own work directory); results in the order given."""
+    from concurrent.futures import ThreadPoolExecutor
+    with ThreadPoolExecutor(max_workers=4) as ex:
+        futs = [ex.submit(t) for t in thunks]
+        return [f.result() for f in futs]
+
+
 def run_C01(tier, seed):
     q = Q(tier)
     res = [stages.api_stage("C01", "complete", tier, seed)]
@@ -67,56 +75,72 @@ def reaches_msm(s):
 
 def run_C02(tier, seed):
     q = Q(tier)
-    res = []
     # (a) design level: code-shaped verifier == published relation, exhaustively over a small field, with seeded-bug negatives
     cfgs = [(5, 2, 2, 1, "verifier")] if q else [(7, 2, 2, 1, "verifier"), (5, 1, 8, 2, "verifier"), (5, 4, 2, 2, "verifier"), (5, 2, 4, 1, "verifier")]
     negs = [(7, 2, 4, 1, "verifier", b, "T1") for b in (["dsum_cap", "radix3"] if q else ["dsum_cap", "radix3", "v_ynm", "no_y"])]
-    res.append(stages.algebra_stage("C02", cfgs, negs))
-    # (b) the code's final MSM against the published relation at the actual challenges, in 252-bit arithmetic
-    bound = 16 if q else 64
-    picks = []
-    for fam, cnt in (("alter", 14 if q else 80), ("capacity", 8 if q else 40), ("batch", 8 if q else 40), ("promise", 6 if q else 40)):
-        sc, _ = stages.pick_scenarios(fam, tier, seed, lambda s: verifies(s) and nm_of(s) <= bound and s["sc"]["mode"] != "RecoverOnly", cnt, prop="C02")
-        picks += sc
-    # proofs with surplus or missing folding rounds must never reach the final check with a mismatched round count
-    rounds, _ = stages.pick_scenarios("alter", tier, seed, lambda s: s["sc"]["members"][0]["mut"]["kind"] == "rounds" and s["sc"]["mode"] == "VerifyOnly", 40, prop="C02")
-    res.append(stages.trace_stage("C02", "relation", picks + rounds, seed, arith=True))
-    # (c) verdict agreement on every single alteration (both groups) and on mixed batches
-    res.append(stages.api_stage("C02", "alter", tier, seed))
-    res.append(stages.api_stage("C02", "capacity", tier, seed, groups=("fm",)))
-    # adversarial proofs from the independent guard-free prover (each validated by TLC against the specification's
-    # prover): out-of-range and below-promise values must be rejected
-    res.append(stages.api_stage("C02", "forge", tier, seed))
-    fg, _ = stages.pick_scenarios("forge", tier, seed, lambda s: nm_of(s) <= 16, 10 if q else 100, prop="C02")
-    res.append(stages.trace_stage("C02", "forged-proofs", fg, seed, module="TraceProve", consts={"Strict": "FALSE", "CheckArith": "TRUE", "CrossFresh": "FALSE"}, calls="prove"))
-    res.append(stages.trace_stage("C02", "forged-verify", fg, seed, module="TraceVerify", calls="verify"))
-    # the relation is only meaningful over independent generators: every generator the verifier weights is the documented,
-    # pairwise distinct derivation (up to 1024 parties)
-    res.append(stages.generators_stage("C02", tier, seed, threads=0))
-    res.append(stages.api_stage("C02", "batch", tier, seed, groups=("fm",)))
-    # statements edited after construction (public fields): no promise entry for some commitment, or surplus entries; the
-    # independent prover builds the proof most favourable to a verifier that pairs commitments with promise entries
-    res.append(stages.cases_stage("C02", "MC_Malformed", tier, seed, invariants="Sound", consts="PairAndStop = FALSE",
-                                  negative=("PairAndStop = TRUE", "Sound")))
+
+    def relation():
+        # (b) the code's final MSM against the published relation at the actual challenges, in 252-bit arithmetic
+        bound = 16 if q else 64
+        picks = []
+        for fam, cnt in (("alter", 14 if q else 80), ("capacity", 8 if q else 40), ("batch", 8 if q else 40), ("promise", 6 if q else 40)):
+            sc, _ = stages.pick_scenarios(fam, tier, seed, lambda s: verifies(s) and nm_of(s) <= bound and s["sc"]["mode"] != "RecoverOnly", cnt, prop="C02")
+            picks += sc
+        # proofs with surplus or missing folding rounds must never reach the final check with a mismatched round count
+        rounds, _ = stages.pick_scenarios("alter", tier, seed, lambda s: s["sc"]["members"][0]["mut"]["kind"] == "rounds" and s["sc"]["mode"] == "VerifyOnly", 40, prop="C02")
+        return stages.trace_stage("C02", "relation", picks + rounds, seed, arith=True)
+
+    def forged():
+        # adversarial proofs from the independent guard-free prover (each validated by TLC against the specification's
+        # prover): out-of-range and below-promise values must be rejected
+        a1 = stages.api_stage("C02", "forge", tier, seed)
+        fg, _ = stages.pick_scenarios("forge", tier, seed, lambda s: nm_of(s) <= 16 and len(s["sc"]["members"]) == 1, 10 if q else 100, prop="C02")
+        a2 = stages.trace_stage("C02", "forged-proofs", fg, seed, module="TraceProve", consts={"Strict": "FALSE", "CheckArith": "TRUE", "CrossFresh": "FALSE"}, calls="prove")
+        a3 = stages.trace_stage("C02", "forged-verify", fg, seed, module="TraceVerify", calls="verify")
+        return [a1, a2, a3]
+    r = par(
+        lambda: stages.algebra_stage("C02", cfgs, negs),
+        relation,
+        # (c) verdict agreement on every single alteration (both groups) and on mixed batches
+        lambda: stages.api_stage("C02", "alter", tier, seed),
+        lambda: stages.api_stage("C02", "capacity", tier, seed, groups=("fm",)),
+        forged,
+        # the relation is only meaningful over independent generators: every generator the verifier weights is the documented,
+        # pairwise distinct derivation (up to 1024 parties)
+        lambda: stages.generators_stage("C02", tier, seed, threads=0),
+        lambda: stages.api_stage("C02", "batch", tier, seed, groups=("fm",)),
+        # statements edited after construction (public fields): no promise entry for some commitment, or surplus entries; the
+        # independent prover builds the proof most favourable to a verifier that pairs commitments with promise entries
+        lambda: stages.cases_stage("C02", "MC_Malformed", tier, seed, invariants="Sound", consts="PairAndStop = FALSE",
+                                   negative=("PairAndStop = TRUE", "Sound")))
+    res = []
+    for x in r:
+        res += x if isinstance(x, list) else [x]
     return res
 
 
 def run_C03(tier, seed):
     neg = [{"name": "first_chunk_only", "loop": False, "whole": False, "expect": "C03"},
            {"name": "loop_without_whole_batch_consistency", "loop": True, "whole": False, "expect": "C03"}]
+
+    def scaled():
+        b = stages.api_stage("C03", "batch", tier, seed, groups=("rist",), scale="2:256", scale_min=0,
+                             limit=400 if Q(tier) else 5000,
+                             must_fn=lambda s: s["sc"]["skew"] != [0, 0, 0] or any(m["n"] == 64 for m in s["sc"]["members"]) or any(m.get("bseed") == 7 for m in s["sc"]["members"]))
+        b.name = "api:batch@256"
+        return b
+
+    def combination():
+        # the batch equation is a proper random combination: non-zero, pairwise distinct, response-bound weights on every member
+        tb, _ = stages.pick_scenarios("batch", tier, seed, lambda s: reaches_msm(s) and nm_of(s) <= 16, 8 if Q(tier) else 80, prop="C03")
+        return stages.trace_stage("C03", "combination", tb, seed, module="TraceVerify", calls="verify")
     # every behaviour at model scale on both groups, then with every model chunk expanded to the real chunk size
     a = stages.api_stage("C03", "batch", tier, seed, negative=neg, limit=1200 if Q(tier) else None)
-    b = stages.api_stage("C03", "batch", tier, seed, groups=("rist",), scale="2:256", scale_min=0,
-                         limit=400 if Q(tier) else 5000,
-                         must_fn=lambda s: s["sc"]["skew"] != [0, 0, 0] or any(m["n"] == 64 for m in s["sc"]["members"]) or any(m.get("bseed") == 7 for m in s["sc"]["members"]))
-    b.name = "api:batch@256"
-    # the orchestration with batch size, CHUNK SIZE, input lengths, validity and class of every member symbolic
-    # the batch equation is a proper random combination: non-zero, pairwise distinct, response-bound weights on every member
-    tb, _ = stages.pick_scenarios("batch", tier, seed, lambda s: reaches_msm(s) and nm_of(s) <= 16, 8 if Q(tier) else 80, prop="C03")
-    d = stages.trace_stage("C03", "combination", tb, seed, module="TraceVerify", calls="verify")
-    c = stages.apalache_stage("C03", "BatchUnbounded", "C03", 12, cinit="CInit", negative_cinits=("CInitLoopOnly", "CInitFirstChunk"),
-                              note="K in 0..10, chunk size in 1..10, the three input lengths, validity and bit-length class of every member are symbolic")
-    res = [a, b, d, c]
+    res = [a] + par(
+        scaled, combination,
+        # the orchestration with batch size, CHUNK SIZE, input lengths, validity and class of every member symbolic
+        lambda: stages.apalache_stage("C03", "BatchUnbounded", "C03", 12, cinit="CInit", negative_cinits=("CInitLoopOnly", "CInitFirstChunk"),
+                                      note="K in 0..10, chunk size in 1..10, the three input lengths, validity and bit-length class of every member are symbolic"))
     if not Q(tier):
         # a batch above the chunk limit, chunk by chunk through the trace specification (each chunk its own call, weights, final check)
         res.append(stages.long_batch_stage("C03", "long-chunks", 262, seed, mode="RecoverAndVerify"))
@@ -207,20 +231,25 @@ def run_C04(tier, seed):
 
 def run_C08(tier, seed):
     q = Q(tier)
-    res = [stages.weights_stage("C08"),
-           stages.simple_mc_stage("C08", "MC_Transcript", stages.transcript_cfg(), [("weight_blind_to_" + o, stages.transcript_cfg(omit=o), "WeightBound") for o in ("r1", "s1", "d1")], name="weight-binding")]
-    # provenance and homogeneity of the weights actually used, on multi-member batches, in 252-bit arithmetic
-    sc, _ = stages.pick_scenarios("batch", tier, seed, lambda s: reaches_msm(s) and nm_of(s) <= 16, 14 if q else 150, prop="C08")
-    sc2, _ = stages.pick_scenarios("recover", tier, seed, lambda s: verifies(s) and len(s["sc"]["members"]) >= 2 and s["sc"]["mode"] != "RecoverOnly" and s["sc"]["members"][0]["t"] == 6, 8 if q else 60, prop="C08")
-    res.append(stages.trace_stage("C08", "weights", sc + sc2, seed, module="TraceVerify", calls="verify"))
-    # a response scalar changed => the proof's contribution to the weight transcript and all weights change
-    sc3, r = stages.pick_scenarios("bind", tier, seed, lambda s: s["sc"]["wdiff"], 10000, prop="C08")
-    st = stages.trace_stage("C08", "response-pairs", sc3, seed, module="TraceTranscriptPair", consts={}, calls="verify", arith=False, per_file=40)
-    res.append(st)
-    res.append(stages.api_stage("C08", "batch", tier, seed, groups=("fm",)))
-    # long batches of distinct proofs (more members than the weight generator has 64-byte blocks, more than one chunk): every
-    # member of every chunk gets its own non-zero output of a generator built after all members of that chunk contributed
-    res.append(stages.long_batch_stage("C08", "long-weights", 258 if q else 515, seed))
+
+    def weights_traces():
+        # provenance and homogeneity of the weights actually used, on multi-member batches, in 252-bit arithmetic
+        sc, _ = stages.pick_scenarios("batch", tier, seed, lambda s: reaches_msm(s) and nm_of(s) <= 16, 14 if q else 150, prop="C08")
+        sc2, _ = stages.pick_scenarios("recover", tier, seed, lambda s: verifies(s) and len(s["sc"]["members"]) >= 2 and s["sc"]["mode"] != "RecoverOnly" and s["sc"]["members"][0]["t"] == 6, 8 if q else 60, prop="C08")
+        return stages.trace_stage("C08", "weights", sc + sc2, seed, module="TraceVerify", calls="verify")
+
+    def response_pairs():
+        # a response scalar changed => the proof's contribution to the weight transcript and all weights change
+        sc3, r = stages.pick_scenarios("bind", tier, seed, lambda s: s["sc"]["wdiff"], 10000, prop="C08")
+        return stages.trace_stage("C08", "response-pairs", sc3, seed, module="TraceTranscriptPair", consts={}, calls="verify", arith=False, per_file=40)
+    res = par(
+        lambda: stages.weights_stage("C08"),
+        lambda: stages.simple_mc_stage("C08", "MC_Transcript", stages.transcript_cfg(), [("weight_blind_to_" + o, stages.transcript_cfg(omit=o), "WeightBound") for o in ("r1", "s1", "d1")], name="weight-binding"),
+        weights_traces, response_pairs,
+        lambda: stages.api_stage("C08", "batch", tier, seed, groups=("fm",)),
+        # long batches of distinct proofs (more members than the weight generator has 64-byte blocks, more than one chunk): every
+        # member of every chunk gets its own non-zero output of a generator built after all members of that chunk contributed
+        lambda: stages.long_batch_stage("C08", "long-weights", 258 if q else 515, seed))
     if not q:
         res.append(stages.long_batch_stage("C08", "long-arith", 70, seed, weights_only=False, mode="RecoverAndVerify"))
     return res
@@ -301,24 +330,26 @@ def run_C15(tier, seed):
 
 def run_C16(tier, seed):
     q = Q(tier)
-    res = [stages.cases_stage("C16", "MC_Codec", tier, seed, invariants="C15 Total")]
-    res.append(stages.apalache_stage("C16", "CodecUnbounded", "Terminated", 16))      # decoding ends within 14 steps whatever the length
-    # uniformly random strings of every length, with a random and with a plausible first byte
+    # uniformly random strings of every length, with a random and with a plausible first byte (alone: it also judges time)
     raw = [{"op": "decode_raw", "len": ln, "fbmode": fm, "expect": "nopanic"} for ln in range(0, 1201 if not q else 700) for fm in (0, 1)]
     raw += [{"op": "decode_scale", "k": k, "expect": "nopanic"} for k in (16000, 32000)]      # ~1 MiB vs ~4 MiB, ~2 MiB vs ~8 MiB
-    res.append(stages.raw_cases_stage("C16", "random-strings", raw, seed))
-    # honest proofs at sizes beyond the everyday ones (up to 512 commitments, capacity 1024) must not bring the verifier down
-    res.append(stages.api_stage("C16", "complete", tier, seed, groups=("rist",), filter_fn=lambda s: s["sc"]["members"][0]["m"] >= 16))
-    # hostile proof shapes against every statement shape and mode: release (overflow checks on) and dev profile
-    res.append(stages.api_stage("C16", "hostile", tier, seed))
+    rawst = stages.raw_cases_stage("C16", "random-strings", raw, seed)
+    res = par(
+        lambda: stages.cases_stage("C16", "MC_Codec", tier, seed, invariants="C15 Total"),
+        lambda: stages.apalache_stage("C16", "CodecUnbounded", "Terminated", 16),      # decoding ends within 14 steps whatever the length
+        # honest proofs at sizes beyond the everyday ones (up to 512 commitments, capacity 1024) must not bring the verifier down
+        lambda: stages.api_stage("C16", "complete", tier, seed, groups=("rist",), filter_fn=lambda s: s["sc"]["members"][0]["m"] >= 16),
+        # hostile proof shapes against every statement shape and mode: release (overflow checks on) and dev profile
+        lambda: stages.api_stage("C16", "hostile", tier, seed),
+        lambda: stages.api_stage("C16", "alter", tier, seed, groups=("rist",)),
+        # whatever the validating constructors let through must be safe to verify with
+        lambda: stages.cases_stage("C16", "MC_Constructors", tier, seed, invariants="Documented", groups=("fm",)),
+        lambda: stages.api_stage("C16", "capacity", tier, seed, groups=("fm",), profile="dev", limit=200 if q else None),
+        lambda: stages.api_stage("C16", "batch", tier, seed, groups=("fm",), profile="dev", limit=250 if q else None))
+    res.insert(2, rawst)
     d = stages.api_stage("C16", "hostile", tier, seed, groups=("fm",) if q else ("fm", "rist"), profile="dev", limit=150 if q else None)
     d.name += "@dev"
     res.append(d)
-    res.append(stages.api_stage("C16", "alter", tier, seed, groups=("rist",)))
-    # whatever the validating constructors let through must be safe to verify with
-    res.append(stages.cases_stage("C16", "MC_Constructors", tier, seed, invariants="Documented", groups=("fm",)))
-    res.append(stages.api_stage("C16", "capacity", tier, seed, groups=("fm",), profile="dev", limit=200 if q else None))
-    res.append(stages.api_stage("C16", "batch", tier, seed, groups=("fm",), profile="dev", limit=250 if q else None))
     big = stages.api_stage("C16", "batch", tier, seed, groups=("rist",), scale="2:256", scale_min=0, limit=60 if q else 600)
     big.name = "api:batch@256"
     res.append(big)
